@@ -668,7 +668,20 @@ func (g *gen) decoders(decls map[string]*ast.FuncDecl) {
 	if fd := decls["decodeChangesetState"]; fd == nil {
 		g.fail("changeset_seps", "decodeChangesetState not found")
 	} else {
-		fmt.Fprintf(&g.b, "Definition changeset_seps : list string := [%s].\n", strings.Join(splitSeps(fd, "Split"), "; "))
+		// the separators of every bytes.Split / SplitN / Cut of the function, in source order
+		var cs []string
+		ast.Inspect(fd.Body, func(nd ast.Node) bool {
+			if c, ok := nd.(*ast.CallExpr); ok && len(c.Args) >= 2 &&
+				(isSel(c.Fun, "bytes", "Split") || isSel(c.Fun, "bytes", "SplitN") || isSel(c.Fun, "bytes", "Cut")) {
+				if lit, ok := g.byteLit(c.Args[1]); ok {
+					cs = append(cs, tr.CoqString(lit))
+				} else {
+					cs = append(cs, "\"?\"")
+				}
+			}
+			return true
+		})
+		fmt.Fprintf(&g.b, "Definition changeset_seps : list string := [%s].\n", strings.Join(cs, "; "))
 		fmt.Fprintf(&g.b, "Definition changeset_join_seps : list string := [%s].\n", strings.Join(splitSeps(fd, "Join"), "; "))
 		fmt.Fprintf(&g.b, "Definition changeset_parsers : list string := [%s].\n", strings.Join(parsers(fd), "; "))
 		var idx []string
